@@ -111,10 +111,12 @@ Section Theorems.
     - destruct (zfind n (st k)); auto. apply wf_supd; auto. apply wf_zins. apply W.
   Qed.
 
-  Lemma wf_save1 u res (st : store) s : wf st -> wf (save1 (hand_prims C) u res st s).
+  Lemma wf_saver u res Sv (st : store) : wf st -> wf (saver u res Sv st).
   Proof.
-    intro W. unfold save1. destruct (mem_kind (fst (fst s)) savable_kinds); auto.
-    apply wf_supd; auto. apply wf_copies. destruct (used_kind u (fst (fst s))); [apply wf_zins|]; apply W.
+    intros W k. unfold saver, saver_map.
+    destruct (mem_kind k savable_kinds); [|apply W].
+    destruct (sa_flag (Sv k)); [|apply W].
+    apply wf_copies. destruct (used_kind u k); [apply wf_zins|]; apply W.
   Qed.
 
   Lemma wf_fold {X} (f : store -> X -> store) : (forall st x, wf st -> wf (f st x)) ->
@@ -124,7 +126,7 @@ Section Theorems.
   Lemma wf_react_core tag cell u sv (st st' : store) : wf st -> do_react_core react (hand_prims C) tag cell u sv st = Some st' -> wf st'.
   Proof.
     intros W H. unfold do_react_core in H. destruct (use_missing u (look st)); [discriminate H|].
-    inversion H. apply wf_fold; auto. intros. apply wf_save1. assumption.
+    inversion H. cbn [p_saver hand_prims]. apply wf_saver. exact W.
   Qed.
 
   Lemma wf_react tag u sv (st st' : store) : wf st -> do_react react (hand_prims C) tag u sv st = Some st' -> wf st'.
@@ -357,6 +359,10 @@ Section Theorems.
   Qed.
 
   (** ** 7. SAVE writes the calculated result under exactly the given numbers *)
+  Lemma save_struct_single k n n_end k' :
+      save_struct_of [(k, n, n_end)] k' = if kind_eqb k' k then mkSave true n n_end else mkSave false 0 0.
+  Proof. reflexivity. Qed.
+
   Theorem save_writes_exactly (st : store) (tag : Z) (u : use_req) k n n_end :
       reacts u = true ->
       use_missing u (look st) = false -> mem_kind k savable_kinds = true -> used_kind u k = true ->
@@ -367,7 +373,13 @@ Section Theorems.
     intros Hr Hm Hk Hu k' i.
     destruct (step_refines_spec (st_react tag u [(k, n, n_end)]) st) as (H1 & _ & _). rewrite H1. clear H1.
     unfold sp_step. cbn [s_tag s_reads s_react st_react fold_left]. unfold sp_react, sp_react_core. rewrite Hr, Hm.
-    cbn [fold_left]. unfold sp_save1. cbn [fst snd]. rewrite Hk, Hu. reflexivity.
+    change (sp_saver u (react tag (-1) (used_of u (look st))) (save_struct_of [(k, n, n_end)]) (look st) k' i
+            = (if kind_eqb k' k && ((i =? n) || (n <? i) && (i <=? n_end))
+               then Some (react tag (-1) (used_of u (look st)) k) else look st k' i)).
+    unfold sp_saver. rewrite save_struct_single.
+    destruct (kind_eqb k' k) eqn:Ek; cbn [sa_flag sa_n sa_end].
+    - apply kind_eqb_eq in Ek. subst k'. rewrite Hk, Hu. reflexivity.
+    - rewrite andb_false_r. reflexivity.
   Qed.
 
   (* SAVE of a kind that took no part in the calculation writes no result; the code still runs its
@@ -384,8 +396,15 @@ Section Theorems.
     intros Hr Hm Hk Hu k' i.
     destruct (step_refines_spec (st_react tag u [(k, n, n_end)]) st) as (H1 & _ & _). rewrite H1. clear H1.
     unfold sp_step. cbn [s_tag s_reads s_react st_react fold_left]. unfold sp_react, sp_react_core. rewrite Hr, Hm.
-    cbn [fold_left]. unfold sp_save1. cbn [fst snd]. rewrite Hk, Hu. unfold sp_copies.
-    destruct (look st k n); reflexivity.
+    change (sp_saver u (react tag (-1) (used_of u (look st))) (save_struct_of [(k, n, n_end)]) (look st) k' i
+            = match look st k n with
+              | Some c => if kind_eqb k' k && ((n <? i) && (i <=? n_end)) then Some c else look st k' i
+              | None => look st k' i
+              end).
+    unfold sp_saver. rewrite save_struct_single.
+    destruct (kind_eqb k' k) eqn:Ek; cbn [sa_flag sa_n sa_end].
+    - apply kind_eqb_eq in Ek. subst k'. rewrite Hk, Hu. simpl. destruct (look st k n); reflexivity.
+    - rewrite andb_false_r. destruct (look st k n); reflexivity.
   Qed.
 
   (* a USE of a missing reactant stops the run and leaves the store as it was *)
@@ -474,6 +493,7 @@ Section Theorems.
   Lemma components_ok_in k : In k reactant_kinds -> In k (g_components T).
   Proof.
     intro Hk. pose proof HT as H. unfold tables_ok in H.
+    apply andb_true_iff in H. destruct H as [H _]. apply andb_true_iff in H. destruct H as [H _].
     apply andb_true_iff in H. destruct H as [_ H]. unfold components_ok in H.
     rewrite forallb_forall in H. apply mem_kind_in. apply H. exact Hk.
   Qed.
